@@ -288,7 +288,7 @@ func c02GenGHist(r *vkit.Run, i int) *c02GHist {
 	c := &h.Case
 	c.Seed = g.U64()
 	c.Build = "gslb-history"
-	c.Basic = gbasic{RetryMax: 2, CrossRetry: 0, Mode: "WRR", Strategy: g.Intn(4), Sticky: g.Bool()}
+	c.Basic = gbasic{RetryMax: 2, CrossRetry: 0, Mode: c02DrawMode(g), Strategy: g.Intn(4), Sticky: g.Bool()}
 	if g.Bool() {
 		c.Basic.Header = "X-Client-Id"
 	} else {
@@ -422,8 +422,12 @@ func c02GDiffers(a, b map[string]int) bool {
 
 func c02BuildGHist(h *c02GHist, g *vkit.Rand) (*c02Instance, error) {
 	c := &h.Case
-	inst := &c02Instance{c: c}
+	inst := &c02Instance{c: c, conn: newC02Conn(vkit.Hash64("conn-ghist", fmt.Sprint(c.Seed)))}
 	inst.bal = bal_gslb.NewBalanceGslb("cl")
+	gb, err := c02BasicConf(c.Basic)
+	if err != nil {
+		return nil, err
+	}
 	for i, st := range h.Steps {
 		gc := gslb_conf.GslbClusterConf(c02GCopy(st.Gslb))
 		tc := c02TableOf(st.Backends)
@@ -433,7 +437,8 @@ func c02BuildGHist(h *c02GHist, g *vkit.Rand) (*c02Instance, error) {
 				return nil, err
 			}
 			inst.bal.BackendInit(tc)
-			inst.bal.SetGslbBasic(c.Basic.conf())
+			inst.bal.SetGslbBasic(gb)
+			inst.preloadConns()
 		case st.All:
 			if err := inst.bal.ReloadAll(gc, tc); err != nil {
 				return nil, err
@@ -511,6 +516,13 @@ func c02GHistCheck(r *vkit.Run, h *c02GHist) {
 			for j, x := range classes[res] {
 				tf := fresh.ask(x.key, x.q)
 				th := hist.ask(x.key, x.q)
+				if th2 := hist.ask(x.key, x.q); th2 != th {
+					r.Violation("gslb-reload:repetition-differs:"+c.Level+":"+c02CanonMode(c.Basic.Mode),
+						fmt.Sprintf("key %x maps to %s and, asked again on the same balancer (BalanceMode %q, only connection counts changed), to %s", x.key, th, c.Basic.Mode, th2),
+						map[string]interface{}{"ghist": h, "key": x.key, "req": x.q, "target_first": th, "target_again": th2})
+					failed = true
+					return
+				}
 				if th != tf {
 					r.Violation("gslb-reload:history-dependent:"+kind+":"+c.Level,
 						fmt.Sprintf("key %x maps to %s (sub-cluster weight %d) on a balancer that reached the sub-cluster configuration through reloads (last reload: %s) but to %s on a freshly initialised balancer with the same configuration", x.key, th, weightOf[th.Sub], kind, tf),
